@@ -535,6 +535,8 @@ def rule_r4(ctx, rep):
     sl = reachable(ctx, [prog.func(q) for q in ENTRY])
     for f in sl:
         f_t = w.types(f)
+        f_locals = {x.id for x in ast.walk(f.node) if isinstance(x, ast.Name) and isinstance(x.ctx, ast.Store)} - \
+            {g for x in ast.walk(f.node) if isinstance(x, ast.Global) for g in x.names}
         for n in ast.walk(f.node):
             tgt = None
             if isinstance(n, (ast.Assign, ast.AugAssign, ast.Delete)):
@@ -552,7 +554,7 @@ def rule_r4(ctx, rep):
             rep.count("stores on the validation slice")
             r = prog.resolve_name_expr(f.module, tgt) if isinstance(tgt, (ast.Name, ast.Attribute)) else None
             shared = False
-            if isinstance(tgt, ast.Name) and tgt.id in f_t.env or (isinstance(tgt, ast.Name) and tgt.id in f.params):
+            if isinstance(tgt, ast.Name) and tgt.id in f_locals or (isinstance(tgt, ast.Name) and tgt.id in f.params):
                 shared = False
             elif r and r[0] in ("const", "classattr"):
                 shared = True
@@ -563,6 +565,15 @@ def rule_r4(ctx, rep):
                         isinstance(a, ast.Assign) and any(isinstance(t, ast.Attribute) and t.attr == tgt.attr and isinstance(t.value, ast.Name) and t.value.id == "self"
                                                           for t in a.targets) for m_ in f.cls.methods.values() for a in ast.walk(m_.node)):
                 shared = True  # mutation of a class-level container through self
+            if shared and isinstance(n, ast.Assign) and len(n.targets) == 1 and isinstance(n.targets[0], ast.Subscript):
+                # a memo entry whose key determines the stored value does not make verdicts history dependent
+                from ..memo import _param_deps
+                _deps, dep_of = _param_deps(f)
+                k_ = n.targets[0].slice
+                bare = {x.id for x in ([k_] if isinstance(k_, ast.Name) else k_.elts if isinstance(k_, ast.Tuple) else []) if isinstance(x, ast.Name) and x.id in f.params}
+                if bare and dep_of(n.value) <= bare:
+                    rep.notes.append(f"{f.loc(n)}: memo entry `{norm(n)[:60]}` keyed by everything its value depends on -- not history dependent")
+                    shared = False
             rep.oblige(("R4", "state", f.qname, norm(n)[:60]), not shared)
             if shared:
                 rep.add("R4", f.qname, n, "validation writes module- or class-level state: the verdict on a node can depend on what was validated before",
